@@ -66,7 +66,9 @@ Proof.
   - rewrite app_nil_r. exact H.
   - fold (liveM f (seen ++ [p])). destruct (existsb (liveM f (seen ++ [p])) xs) eqn:E.
     + specialize (IH (seen ++ [p]) E). rewrite <- app_assoc in IH. exact IH.
-    + destruct p as [n v|n b|a]; try exact I. rewrite <- E, <- H. apply existsb_ext'. intros x Hx. unfold liveM.
+    + destruct p as [n v|n b|a]; try exact I.
+      assert (X : existsb (liveM f (seen ++ [IObj a])) xs = existsb (liveM f seen) xs); [|congruence].
+      apply existsb_ext'. intros x Hx. unfold liveM.
       rewrite agrees_upto_app. unfold agrees_upto at 2. cbn. rewrite (NO x Hx). rewrite !andb_true_r. reflexivity.
 Qed.
 Lemma deviation_no_obj f its o xs : no_obj xs -> consume f its o xs = None -> obj_kind (fst (deviation f its xs)) = false.
@@ -77,8 +79,8 @@ Proof.
   { rewrite <- OP. apply existsb_ext'. intros x _. unfold liveM. cbn. apply andb_true_r. }
   pose proof (first_dead_no_obj f xs NO its [] L0) as FD. cbn [app] in FD.
   destruct (first_dead f xs [] its) as [[n v|n b|a]|].
-  - destruct (existsb _ xs); reflexivity.
-  - destruct (existsb _ xs); reflexivity.
+  - cbn [fst]. match goal with |- context [if ?b then _ else _] => destruct b end; reflexivity.
+  - cbn [fst]. match goal with |- context [if ?b then _ else _] => destruct b end; reflexivity.
   - destruct FD.
   - apply existsb_exists in FD. destruct FD as [x [Hx Lx]]. cbn [fst].
     destruct (existsb (fun x0 => x_open x0 && (sx_f (x_e x0) =? f) && agrees_upto (x_e x0) its && negb (params_covered (x_e x0) its)) xs) eqn:E; [reflexivity|].
